@@ -12,18 +12,27 @@ from odxgen import values as V
 ID = "C03"
 # LEAN_TARGETS / THEOREMS: filled in by the author of the Lean codec/compu model (planned: OdxVerif.Props.C03 with
 # C03_reencode, C03_compu_roundtrip)
-LEAN_TARGETS = ['OdxVerif.Props.C03', 'OdxVerif.Props.C07']
+LEAN_TARGETS = ['OdxVerif.Props.C03', 'OdxVerif.Props.C07', 'OdxVerif.Props.C03Nested']
 DRIVERS = ["drv_codec"]
-THEOREMS = ["OdxVerif.Codec." + t for t in ['C03_reencode_struct', 'C03_reencode_flat', 'C03_no_warning_without_overlap', 'C03_reencode_partial', 'C03_negative_zero_counterexample', 'reenc_agree', 'encAll_nowarn']]
+THEOREMS = ["OdxVerif.Codec." + t for t in ['C03_reencode_struct', 'C03_reencode_flat', 'C03_no_warning_without_overlap', 'C03_reencode_partial', 'C03_negative_zero_counterexample', 'reenc_agree', 'encAll_nowarn',
+                                              'C03_reencode_nested', 'C03_encoded_is_canonical', 'C03_empty_dynlen_before_offset_counterexample', 'C03_static_padding_behind_end_counterexample', 'descs_reencode_pure', 'Descs.supplied_eq_decoded']]
 RULE = ("PDUs 'from the wire': for simple-tier descriptions (standard-length objects of all base types/encodings/byte orders/bit positions in "
         "nested structures with/without BYTE-SIZE, static fields, bit-packed groups) every raw value of objects <= 8 bit and boundary/sampled raw "
         "values of wider ones are placed by the independent positional interpreter odxgen/refpdu.py, restricted to canonical PDUs (canonPdu, "
         "documented in harness/codec_oracles.py); plus PDUs produced by the encoder from canonical values for descriptions of the full envelope "
-        "(fields, mux, tables, DTC, env data, length keys, min-max/leading/param-length types); compu methods of six categories from "
+        "(fields, mux, tables, DTC, env data, length keys, min-max/leading/param-length types); enumerated from the wire: every way a DTC-DOP obtains "
+        "its DTCs (own / DTC-REF / LINKED-DTC-DOPS with NOT-INHERITED, shadowing, chains, declaration orders) with every described and every "
+        "not described trouble code, and MIN-MAX-LENGTH objects of every base type x termination x byte order x min/max x end-of-PDU with every "
+        "value of <= 3 (two-byte units: 2) code units over the bytes 00/ff/41 (+1 unit over termination byte/41); compu methods of six categories from "
         "harness/compu_lib.py with every internal value of the 8-bit window. distinct = distinct (description, PDU) resp. (compu method, internal value); "
         "non-trivial = the PDU decodes and has more than one byte")
 TRUSTED = ["odxgen/refpdu.py (positional reference interpreter, ~250 lines) and the exact compu emulation in odxgen/values.py",
-           "harness/compu_lib.py generators/Spec (written for C07) for the compu family"]
+           "harness/compu_lib.py generators/Spec (written for C07) for the compu family",
+           "odxgen/desc.effective_dtcs: the DTCs a DTC-DOP describes (own DTC children, DTC-REFs, DTCs inherited through LINKED-DTC-DOPS minus "
+           "NOT-INHERITED / shadowed ones) - the model receives this flattened list, the XML document the references (compared with "
+           "odxtools' DtcDop.dtcs in family wire-enum-dtc-sources)",
+           "odxgen/refpdu.sequential_pdu / minmax_wire_length (~70 lines): wire form of MIN-MAX-LENGTH objects written from the ODX rules "
+           "(value ends in front of the first ALIGNED termination sequence at an offset >= MIN-LENGTH, at MAX-LENGTH or at the end of the PDU)"]
 ASSUMPTIONS = ["re-encoding feeds the decoded dictionary back unchanged except that values of NRC-CONST parameters are dropped (odxtools refuses them by design)",
                "canonical switch keys: a mux case is re-encoded by name, i.e. with the lower limit of its range (0 for the default case)",
                "'injective' = real physical type with strictly monotone conversion, or integer physical type with every |slope| >= 1; a rounding tie "
@@ -182,14 +191,19 @@ compu_case.seen = set()
 
 
 # ------------------------------------------------------------------ PDU families
-def wire_family(ctx, rep, corr, comps, family, rng, cap, cap_all=False, only=None):
+def wire_family(ctx, rep, corr, comps, family, rng, cap, cap_all=False, only=None, extra_raws=None):
+    """extra_raws: composite name -> raw values of the slot `only` which are NOT canonical / not described (e.g. trouble codes the
+    DTC-DOP does not inherit): their PDUs go through the re-encode check and the correspondence only (no expected value)"""
     L, err = O.safe_load(comps)
     if L is None:
         if len(comps) > 1:
             for c in comps:
-                wire_family(ctx, rep, corr, [c], family, rng, cap, cap_all, only)
+                wire_family(ctx, rep, corr, [c], family, rng, cap, cap_all, only, extra_raws)
         else:
             ctx.count("documents_rejected_by_loader")
+            if family in MUST_LOAD:
+                ctx.violate("loads", [family], (err or "").split(":")[0], O.witness(comps[0], None, None),
+                            f"enumerated description of family {family} rejected by the loader: {err}")
         return
     ctx.count("documents_loaded")
     for c in comps:
@@ -205,16 +219,97 @@ def wire_family(ctx, rep, corr, comps, family, rng, cap, cap_all=False, only=Non
             ctx.count("wire_generation_error:" + type(e).__name__)
             continue
         for pdu, exp, trig in pdus:
-            r = O.c03_check(ctx, rep, corr, c, obj, pdu, trig, family)
+            # (clause wire-decode: the values decode reads from a reference-built PDU are the values that were placed)
+            r = O.c03_check(ctx, rep, corr, c, obj, pdu, trig, family, placed=exp)
             ctx.count("wire_pdus")
-            # the values decode reads from a reference-built PDU are the values that were placed
-            dec = O.impl_decode(obj, pdu)
-            if dec.ok and V.norm(dec.value) != V.norm(exp):
-                rep.report("wire-decode", "different-values", c, None, trig,
-                           {"pdu": pdu.hex(), "decoded": V.jsonable(dec.value), "placed": V.jsonable(exp)}, extra_features=["reference-pdu"])
-            elif not dec.ok:
-                rep.report("wire-decode", dec.status, c, None, trig, {"pdu": pdu.hex(), "placed": V.jsonable(exp), "error": dec.msg},
-                           extra_features=["reference-pdu"])
+        for raw in (extra_raws or {}).get(c.name, []):
+            try:
+                sl, length = refpdu.slots(c)
+                raws = {s.path: (raw if s.path in only else 0xA5 & s.mask) for s in sl if s.kind == "value"}
+                pdu, _used, overlap = refpdu.assemble(sl, length, raws, None)
+            except Exception as e:  # noqa
+                ctx.count("wire_generation_error:" + type(e).__name__)
+                continue
+            O.c03_check(ctx, rep, corr, c, obj, pdu, None, family, shrinkable=False)
+            ctx.count("wire_pdus_not_described")
+
+
+def finding_corpus():
+    """(tag, composite, PDU hex, what): found by the proof of C03_reencode_nested, which needs `extent <= pdu.length` (hypothesis hext):
+    the decoder's cursor jumps (to OFFSET of a dynamic-length field, to the next ITEM-BYTE-SIZE boundary of a static field) are not checked
+    against the end of the PDU, so a PDU that ends before them decodes, and re-encoding the result yields a LONGER byte string"""
+    u8, val = D.u8, D.value
+    return [
+        ("dynlen-empty-before-offset", D.Composite("RQ", "request", [val("df", D.DynLenField(2, 0, None, u8(), D.Struct([val("x", u8())])))]), "00",
+         "an empty DYNAMIC-LENGTH-FIELD whose OFFSET lies behind the end of the PDU: decode(00) = {df: []} but encode(df=[]) = 00 00 (the gap up to "
+         "OFFSET is emitted by the encoder, not required by the decoder)"),
+        ("static-field-padding-behind-pdu-end", D.Composite("RQ", "request", [val("sf", D.StaticField(1, 2, D.Struct([val("x", u8())])))]), "05",
+         "a STATIC-FIELD item shorter than ITEM-BYTE-SIZE at the end of the PDU: decode(05) = {sf: [{x: 5}]} but encode = 05 00 (the item padding is "
+         "emitted by the encoder, not required by the decoder)"),
+    ]
+
+
+#: enumerated families whose descriptions are well-formed by construction: a loader rejection is a finding, not a skip
+MUST_LOAD = {"wire-enum-dtc-sources", "wire-enum-minmax"}
+
+
+def dtc_sources_family(ctx, rep, corr, rng):
+    """(b2) every way a DTC-DOP obtains its DTCs (G.enum_dtc_sources): one PDU per described trouble code, built by refpdu (wire-decode
+    + re-encode with the decoded DiagnosticTroubleCode object), one per trouble code of the document that is NOT described"""
+    for chunk in batches(G.enum_dtc_sources(), 25):
+        extra = {}
+        for c, codes in chunk:
+            eff = {x for x, _ in D.effective_dtcs(c.params[1].dop)}
+            extra[c.name] = [x for x in codes if x not in eff] + [0]
+            ctx.histo("dtc_source_shape", next(iter(c.meta)).split(":", 1)[1])
+        wire_family(ctx, rep, corr, [c for c, _ in chunk], "wire-enum-dtc-sources", rng, 40, only={("d",)}, extra_raws=extra)
+        # the model is handed the flattened DTC list (D.effective_dtcs): tie it to what the loaded DTC-DOP describes
+        L, err = O.safe_load([c for c, _ in chunk])
+        for c, _codes in (chunk if L is not None else []):
+            want = [[x, n] for x, n in D.effective_dtcs(c.params[1].dop)]
+            try:
+                got = [[d.trouble_code, d.short_name] for d in L[c.name].parameters[1].dop.dtcs]
+            except Exception as e:  # noqa
+                got = "foreign:" + type(e).__name__
+            ctx.traces += 1
+            if got != want:
+                ctx.disagree("dtc-sources", S.composite(c)[:3000], repr(want), repr(got))
+    corr.flush()
+
+
+def minmax_wire_family(ctx, rep, corr, big):
+    """(b3) MIN-MAX-LENGTH objects from the wire (G.enum_minmax_wire): the PDU of every enumerated value that has a canonical wire form
+    is written down by refpdu.sequential_pdu (value, terminator where the ODX rules put one, following parameter)"""
+    groups = {}
+    for c, v in G.enum_minmax_wire(full=big):
+        groups.setdefault(c.name, (c, []))[1].append(v)
+    for chunk in batches(groups.values(), 24):
+        comps = [c for c, _ in chunk]
+        L, err = O.safe_load(comps)
+        if L is None:
+            ctx.count("documents_rejected_by_loader")
+            ctx.violate("loads", ["wire-enum-minmax"], (err or "").split(":")[0], O.witness(comps[0], None, None),
+                        f"enumerated min-max descriptions rejected by the loader: {err}")
+            continue
+        ctx.count("documents_loaded")
+        for c, vals in chunk:
+            obj = L[c.name]
+            O.record_features(ctx, c)
+            ctx.histo("family", "wire-enum-minmax")
+            for v in vals:
+                try:
+                    r = refpdu.sequential_pdu(c, v)
+                except Exception as e:  # noqa
+                    ctx.count("wire_generation_error:" + type(e).__name__)
+                    continue
+                if r is None:
+                    ctx.count("wire_minmax_value_without_canonical_form")
+                    continue
+                pdu, exp = r
+                O.c03_check(ctx, rep, corr, c, obj, pdu, None, "wire-enum-minmax", shrinkable=False, placed=exp)
+                ctx.count("wire_pdus")
+                ctx.count("wire_minmax_pdus")
+        corr.flush()
 
 
 def batches(it, n):
@@ -244,6 +339,14 @@ def run(ctx):
                 continue
             ctx.histo("family", "corpus")
             O.c03_check(ctx, rep, corr, c, L[c.name], bytes.fromhex(pdu), trig, "corpus")
+        # witnesses of recorded (open) findings, each with its fixed signature
+        for tag, c, pdu, what in finding_corpus():
+            L, err = O.safe_load(c)
+            if L is None:
+                ctx.violate("loads", [tag], err.split(":")[0], O.witness(c, None, None), f"corpus description {tag} rejected by the loader: {err}")
+                continue
+            ctx.histo("family", "finding-corpus")
+            O.c03_check(ctx, rep, None, c, L[c.name], bytes.fromhex(pdu), None, "finding-corpus", shrinkable=False, fixed_features=[tag], what=what)
         for tag, desc in compu_corpus():
             compu_case(ctx, desc, "compu-corpus")
         # (b) from the wire: enumerated standard-length DOPs and random simple-tier composites
@@ -253,6 +356,8 @@ def run(ctx):
         for comps in batches(G.enum_std_other((0, 3)), 48):
             wire_family(ctx, rep, corr, comps, "wire-enum-other", rng, 60 if big else 16, only={("x",)})
         corr.flush()
+        dtc_sources_family(ctx, rep, corr, rng)
+        minmax_wire_family(ctx, rep, corr, big)
         for i in range(8000 if big else 1200):
             try:
                 c = G.gen_composite(rng, profile=G.SIMPLE_DEEP if big else G.SIMPLE, name="C")
@@ -337,6 +442,20 @@ def run(ctx):
                 model_cases(comps, 1)
             for comps in batches((c for c, _v, issue in G.enum_struct_layout_orders() if not issue), 24):
                 model_cases(comps, 1)
+            # DTC-DOPs with DTC-REFs / LINKED-DTC-DOPS and terminated min-max objects with values around the termination sequence:
+            # the PDUs come from the model's encoder (the encoder under test may refuse exactly the values that matter)
+            for chunk in batches(G.enum_dtc_sources(), 25):
+                model_cases([c for c, _ in chunk], 2)
+            mm = {}
+            for c, v in G.enum_minmax_terminated():
+                mm.setdefault(c.name, (c, []))[1].append(v)
+            for chunk in batches(mm.values(), 24):
+                L, err = O.safe_load([c for c, _ in chunk])
+                if L is None:
+                    ctx.count("documents_rejected_by_loader")
+                    continue
+                for c, vals in chunk:
+                    batch.extend((c, L[c.name], v, None) for v in vals)
             flush_model()
             for i in range(6000 if big else 900):
                 try:
